@@ -63,14 +63,14 @@ def coq_doc(c: dict, encoding: str) -> str:
 
 
 MANIFEST = dict(
-    technique='Rocq proof (binary DMX body round trip for versions 0-5 generic in the generated type-code/codec/stub configuration; type-code round trip; KV1 bridge round trip by nested induction) + ast translator with kernel-checked instance obligations + byte-exact vm_compute correspondence + isomorphism oracle on real graphs',
-    text='Theorems in Props/C14.v: for every configuration satisfying the named table/codec/stub conditions the attribute type byte decodes to the same (type, array?) pair; parse_bin (export_bin d) = d for every expressible document (element list with index/NULL/stub references, all 14 value types scalar and array, string table presence and index widths of versions 0-5); to_kv1 (from_kv1 t) = t for every Keyvalues tree. The configuration (VAL_TYPE_TO_IND, ARRAY_OFFSET, the comparison at the decode site, SIZES, the codec of every string read/write site, what follows the stub index, KV2 escaping/codec per interpolated field, KV2 stub creation, KV1 constants) is regenerated from dmx.py on every run and the conditions are kernel-checked. The hand models are compared with export_binary/parse_bin (byte-exact, supplied UUIDs) and from_kv1/to_kv1 on generated inputs; generated graphs (DAGs, cycles, stubs, NULLs, all types, empty arrays, 3 unicode modes, versions 1-5, KV2 flat/nested/cull_uuid) are round-tripped on the implementation and compared up to isomorphism.',
-    note='Trusted: Coq kernel + vm_compute, translate/c14_dmx.py, hand models Fmt/DmxBin.v and Fmt/DmxKv1.v (tied by differential runs), CPython struct/codecs/uuid (fixed-width values are bit patterns in the model; str.encode/decode and UUID text are parameters), breadth-first numbering of the object graph (done by the harness, checked by the byte-exact comparison). KeyValues2 text is covered by obligations on the writer templates plus search, not by a parser proof. Known finding: nested KV2 cannot express an inline element whose type is a value-type keyword.',
+    technique='Rocq proof (binary DMX body round trip for versions 0-5; type-code round trip; fixed-width value codecs through the shared struct model incl. the TIME codec over exact rationals with a proved binary64 rounding model; typed binary documents; KeyValues2 on the shared tokenizer model: reference decision tables, flat layout text -> tokens -> document -> graph (fix-up pass), nested layout with the full parser recursion by mutual nested induction; value strings through C05\'s exact %.6f model; KV1 bridge) + ast translator with 57 kernel-checked instance obligations + seven vm_compute correspondences (byte-exact binary, scalar codecs, KV2 flat / nested text exact, keyword predicate, value strings, KV1 bridge) + isomorphism oracle on real graphs',
+    text='Theorems in Props/C14.v (46; all closed under the global context): the attribute type byte decodes to the same (type, array?) pair; parse_bin (export_bin d) = d for every expressible document (versions 0-5); every fixed-width value representable in its wire type (int32, binary32 patterns, booleans, tick-exact times, colour bytes, vectors, angles in [0,360), quaternions, the 3x3 part of a matrix) is packed by the generated struct format into calcsize bytes and unpacked to the same value (Bin/Struct unpack_pack instantiated); round((k/S)*S) = k in binary64 for every 32-bit tick count, with |rn64 x - x| <= 2^-53 |x| proved for the executable rounding model, and int() instead of round() refuted by a computed witness; typed documents survive lower -> export_bin -> parse_bin -> lift; a KV2 reference decision table meeting its condition writes NULL / stub / root / inline exactly as the format needs and the two sites agree (dropping `or is_stub` refuted); the flat-layout text of any document re-tokenises (C02 quoted_embedding composed) and re-parses to the document, and linking UUID references gives back the graph (sharing, cycles, NULL, stubs) for pairwise distinct ids; the nested-layout text re-parses to the tree of inline blocks at any depth provided no inline element has an attribute type keyword as its type (refuted otherwise: the defect repaired in this round); FLOAT / vector component text denotes the value rounded half-even at 6 places, vector texts split into their components, int and colour texts parse back; to_kv1 (from_kv1 t) = t. All configurations (type codes, sizes, struct formats, TIME rounding function and scales, MATRIX slot layout, codec per string site, stub payload, KV2 escaping / codec per field, the two reference if-chains, the keyword-root rule, Tokenizer kwargs, ValueType keywords, _fmt_float and the vector / colour string converters, KV1 constants) are regenerated from dmx.py (tokenizer tables from tokenizer.py) on every run and the premises are kernel-checked as named obligations. The models are compared with the implementation on generated inputs on every run; generated graphs (DAGs, cycles, stubs, NULLs, all types, empty arrays, 3 unicode modes, versions 1-5, KV2 flat/nested/cull_uuid) are round-tripped through Element.parse and compared up to isomorphism.',
+    note='Trusted: Coq kernel + vm_compute, translate/c14_dmx.py and translate/c02_tables.py, the hand models Fmt/DmxBin.v, Fmt/DmxKv1.v, Fmt/DmxScalar.v, Fmt/DmxKv2.v, Fmt/DmxKv2Nested.v, Fmt/DmxValText.v (each tied by a differential run on every run) and the shared Bin/Struct.v, Text/Tokenizer.v, Num/Dec6.v; CPython codecs / uuid (str.encode/decode and UUID text are parameters or opaque texts); binary64 arithmetic is rn64 of the exact result (no exponent range; compared with CPython float * and / on every run); a binary32 value is its bit pattern (harness converts with struct "<f"); FrozenAngle normalisation identity on [0,360) is a hypothesis checked on sampled patterns; breadth-first numbering of the object graph is done by the harness and checked by the byte-exact comparison. Not modelled (oracle only): which elements export_kv2 makes roots in the nested layout (recomputed by the harness for the text comparison; the keyword rule is an obligation + predicate correspondence) and the graph <-> block-tree step of the nested layout, float(text) / str(float) / hex / bool strings, malformed KV2 input, the DMX header line and unicode flag, format name/version. No known finding left: the round-1 finding (inline element whose type is an attribute type keyword) is repaired in the repo branch.',
 )
 
 IMPORTS = ['Coq.NArith.NArith', 'Coq.ZArith.ZArith', 'Coq.Lists.List', 'Coq.Bool.Bool', 'SV.Fmt.DmxCodes', 'SV.Fmt.DmxBin',
            'SV.Fmt.DmxKv1', 'SV.Fmt.DmxScalar', 'SV.Text.Str', 'SV.Text.Tokenizer', 'SV.Text.TokGen', 'SV.Fmt.DmxKv2',
-           'SV.Gen.DmxCodes_gen', 'SV.Fmt.DmxKv2Inst']
+           'SV.Num.Dec6', 'SV.Fmt.DmxValText', 'SV.Gen.DmxCodes_gen', 'SV.Fmt.DmxKv2Inst']
 PRE_BIN = '''Import ListNotations. Open Scope N_scope.
 Definition idenc (_ : enc) (s : str) : bytes := s.
 Definition iddec (_ : enc) (b : bytes) : option str := Some b.
@@ -773,6 +773,149 @@ def corr_kv2_nested(ck: Ck) -> None:
                                                         3: 'generated document outside ndoc_ok'}.get(code, code)}
 
 
+
+# ------------------------------------------------------------------------------------------------ value strings
+IMPORTS_VT = ['Coq.NArith.NArith', 'Coq.ZArith.ZArith', 'Coq.Lists.List', 'Coq.Bool.Bool', 'Coq.Strings.String', 'SV.Num.Dec6',
+              'SV.Fmt.DmxCodes', 'SV.Fmt.DmxValText', 'SV.Gen.DmxCodes_gen']
+PRE_VT = """Import ListNotations. Open Scope N_scope.
+Fixpoint leqb {A} (f : A -> A -> bool) (a b : list A) : bool :=
+  match a, b with [], [] => true | x :: a', y :: b' => f x y && leqb f a' b' | _, _ => false end.
+Definition s_eqb := leqb N.eqb.
+Definition oparts_eqb (a b : option (list (list N))) := match a, b with Some x, Some y => leqb s_eqb x y | None, None => true | _, _ => false end.
+Definition oz_eqb (a b : option Z) := match a, b with Some x, Some y => (x =? y)%Z | None, None => true | _, _ => false end.
+Definition ocol_eqb (a b : option (Z * Z * Z * Z)) := match a, b with
+  | Some (r, g, b0, a0), Some (r', g', b', a') => ((r =? r') && (g =? g') && (b0 =? b') && (a0 =? a'))%Z | None, None => true | _, _ => false end.
+Inductive vcase :=
+| CFloat (x : dyadic) (text : list N)                                  (* _fmt_float(x) *)
+| CVec (xs : list dyadic) (text : list N)                              (* TYPE_CONVERT[vector type, STRING] *)
+| CSplit (n : nat) (text : list N) (parts : option (list (list N)))    (* text.split() with the count check of parse_vector *)
+| CInt (z : Z) (text : list N)                                         (* str(z) *)
+| CIntParse (text : list N) (z : option Z)                             (* int(text) on plain decimals *)
+| CColor (r g b a : N) (text : list N)                                 (* TYPE_CONVERT[COLOR, STRING] *)
+| CColorParse (text : list N) (c : option (Z * Z * Z * Z)).            (* _conv_string_to_color *)
+Definition chkv (c : vcase) : N := match c with
+  | CFloat x t => if s_eqb (float_text gen_float_fmt x) t then 0 else 1
+  | CVec xs t => if s_eqb (vec_text gen_float_fmt xs) t then 0 else 2
+  | CSplit n t p => if oparts_eqb (parse_parts py_space n t) p then 0 else 3
+  | CInt z t => if s_eqb (int_text z) t then 0 else 4
+  | CIntParse t z => if oz_eqb (parse_int t) z then 0 else 5
+  | CColor r g b a t => if s_eqb (color_text r g b a) t then 0 else 6
+  | CColorParse t c => if ocol_eqb (parse_color py_space t) c then 0 else 7
+  end.
+Fixpoint bad_idx {A} (f : A -> N) (n : N) (l : list A) : list N := match l with [] => [] | x :: r => (if f x =? 0 then [] else [n * 10 + f x]) ++ bad_idx f (n + 1) r end.
+"""
+
+
+def _dyadic(x: float) -> str:
+    import math
+    n, d = abs(x).as_integer_ratio()
+    e = -(d.bit_length() - 1)
+    return f'{{| dneg := {"true" if math.copysign(1.0, x) < 0 else "false"}; dm := {n}; de := ({e})%Z |}}'
+
+
+def _rand_double(rng) -> float:
+    r = rng.random()
+    if r < 0.25:
+        return _f32_val(_rand_f32(rng) & 0xBFFFFFFF if rng.random() < 0.5 else _f32_bits(rng.uniform(-400, 400)))
+    if r < 0.45:
+        return rng.choice([0.0, -0.0, 0.5, -0.5, 5e-7, -5e-7, 4.9999999e-7, 1.5e-6, 2.5e-6, 0.9999995, 0.9999994999, 123456.7890125,
+                           1e-7, -1e-7, 359.9999996, 1e15, -1e15, 0.1, 0.2 + 0.1, 1 / 3, 2 ** -30, 1e21, 123456789012345680.0])
+    if r < 0.75:
+        return round(rng.uniform(-1000, 1000), rng.choice([0, 1, 3, 6, 7]))
+    return rng.uniform(-1e6, 1e6) * 10 ** rng.randint(-8, 2)
+
+
+def corr_value_text(ck: Ck) -> None:
+    """Fmt/DmxValText.v (C05's exact '%.6f' model for FLOAT and the float vectors, decimal integers, colours, split)
+    vs dmx._fmt_float, TYPE_CONVERT[t, STRING], str.split / parse_vector's count check, int(), _conv_string_to_color."""
+    from srctools import dmx
+    from srctools.math import FrozenAngle, FrozenVec
+    n = ck.budget(300, 3000)
+    cases = []
+    S = dmx.ValueType.STRING
+    for i in range(n):
+        k = i % 7
+        if k == 0:
+            x = _rand_double(ck.rng)
+            cases.append(('float', x, f'(CFloat {_dyadic(x)} {_cps(dmx._fmt_float(x))})'))
+        elif k == 1:
+            typ = ck.rng.choice(['VEC2', 'VEC3', 'VEC4', 'QUATERNION', 'ANGLE'])
+            cnt = {'VEC2': 2, 'VEC3': 3, 'VEC4': 4, 'QUATERNION': 4, 'ANGLE': 3}[typ]
+            xs = [abs(_rand_double(ck.rng)) % 360.0 if typ == 'ANGLE' else _rand_double(ck.rng) for _ in range(cnt)]
+            v = {'VEC2': dmx.Vec2, 'VEC3': FrozenVec, 'VEC4': dmx.Vec4, 'QUATERNION': dmx.Quaternion, 'ANGLE': FrozenAngle}[typ](*xs)
+            comps = [v.pitch, v.yaw, v.roll] if typ == 'ANGLE' else ([v.x, v.y, v.z] if typ == 'VEC3' else list(v))
+            text = dmx.TYPE_CONVERT[dmx.ValueType[typ], S](v)
+            cases.append((typ, xs, f'(CVec {coq_list(_dyadic(c) for c in comps)} {_cps(text)})'))
+        elif k == 2:
+            words = [ck.rng.choice(['1', '-0.5', '12.25', '0', '7e3', 'x']) for _ in range(ck.rng.randint(0, 5))]
+            text = ck.rng.choice(['', ' ', '\t']) + ck.rng.choice([' ', '  ', '\n', '\t ', '\x0b', ' ', ' ']).join(words) + ck.rng.choice(['', ' ', '\r\n'])
+            cnt = ck.rng.choice([len(words), len(words), 2, 3])
+            parts = text.split()
+            pl = f'(Some {coq_list(_cps(p_) for p_ in parts)})' if len(parts) == cnt else 'None'
+            cases.append(('split', text, f'(CSplit {cnt} {_cps(text)} {pl})'))
+        elif k == 3:
+            z = ck.rng.choice([0, 1, -1, 10, -10, 255, 2 ** 31 - 1, -2 ** 31, ck.rng.randrange(-10 ** 12, 10 ** 12), ck.rng.randrange(-1000, 1000)])
+            cases.append(('int', z, f'(CInt ({z})%Z {_cps(dmx.TYPE_CONVERT[dmx.ValueType.INTEGER, S](z))})'))
+        elif k == 4:
+            text = ck.rng.choice(['0', '-0', '7', '-12', '007', '123456789012', '-', '', '1x', '--1', '1-', '-00', str(ck.rng.randrange(-10 ** 9, 10 ** 9))])
+            try:
+                zl = f'(Some ({dmx.TYPE_CONVERT[S, dmx.ValueType.INTEGER](text)})%Z)'
+            except ValueError:
+                zl = 'None'
+            cases.append(('int-parse', text, f'(CIntParse {_cps(text)} {zl})'))
+        elif k == 5:
+            c = [ck.rng.choice([0, 255, 7, 10, 100, ck.rng.randrange(256)]) for _ in range(4)]
+            text = dmx.TYPE_CONVERT[dmx.ValueType.COLOR, S](dmx.Color(*c))
+            cases.append(('color', c, f'(CColor {c[0]} {c[1]} {c[2]} {c[3]} {_cps(text)})'))
+        else:
+            words = [str(ck.rng.choice([0, 5, 255, 300, -4, ck.rng.randrange(256)])) for _ in range(ck.rng.choice([3, 4, 4, 2, 5]))]
+            if ck.rng.random() < 0.1:
+                words[0] = 'r'
+            text = ck.rng.choice([' ', '  ', '\t']).join(words)
+            try:
+                # before clamping: the arguments handed to Color(...)
+                parts = text.split()
+                if len(parts) == 3:
+                    want = (int(parts[0]), int(parts[1]), int(parts[2]), 255)
+                elif len(parts) == 4:
+                    want = tuple(int(p_) for p_ in parts)
+                else:
+                    raise ValueError
+                got = dmx.TYPE_CONVERT[S, dmx.ValueType.COLOR](text)
+                clamp = tuple(max(0, min(255, v_)) for v_ in want)
+                if (got.r, got.g, got.b, got.a) != clamp:
+                    want = None
+                cl = 'None' if want is None else f'(Some (({want[0]})%Z, ({want[1]})%Z, ({want[2]})%Z, ({want[3]})%Z))'
+                if want is None:
+                    cl = '(Some (0%Z, 0%Z, 0%Z, (-1)%Z))'      # forces a disagreement: the implementation did not clamp int(parts)
+            except ValueError:
+                try:
+                    dmx.TYPE_CONVERT[S, dmx.ValueType.COLOR](text)
+                    cl = '(Some (0%Z, 0%Z, 0%Z, (-1)%Z))'      # the implementation accepted what int()/the count rule rejects
+                except ValueError:
+                    cl = 'None'
+            cases.append(('color-parse', text, f'(CColorParse {_cps(text)} {cl})'))
+        ck.count('corr_value_text_cases')
+        ck.hist('corr_value_text_kind', cases[-1][0])
+        ck.seen(('vt', cases[-1][0], repr(cases[-1][1])))
+    bad = []
+    for lo in range(0, len(cases), 600):
+        vals = ck.coq_eval(IMPORTS_VT, [f'bad_idx chkv 0 {coq_list(x[2] for x in cases[lo:lo + 600])}'], name='valtext', preamble=PRE_VT)
+        if vals is None:
+            ck.obligation('correspondence:kv2-value-text', False, 'model could not be evaluated')
+            ck.tie_broken.append('correspondence KV2 value text: model evaluation failed')
+            return
+        bad += [(lo + v // 10, v % 10) for v in parse_coq_N_list(vals[0])]
+    ck.obligation('correspondence:kv2-value-text', not bad,
+                  f'{len(cases)} cases: Fmt/DmxValText.v float_text / vec_text (exact %.6f model) vs _fmt_float and TYPE_CONVERT[vector, STRING], '
+                  f'parse_parts vs str.split + count check, int_text / parse_int vs str / int, color_text / parse_color vs the colour converters: '
+                  f'{len(bad)} disagreements')
+    if bad:
+        i, code = bad[0]
+        ck.tie_broken.append('correspondence KV2 value text (Fmt/DmxValText.v vs the string converters of dmx.py)')
+        ck.extra['value_text_disagreement'] = {'kind': cases[i][0], 'input': repr(cases[i][1]), 'code': code}
+
+
 # ------------------------------------------------------------------------------------------------ KV1 bridge
 KV_NAMES = ['a', 'b', 'A', 'key', 'Key', 'name', 'Name', 'NAME', 'subkeys', 'SubKeys', 'value', 'Value', 'id', '', 'x y', 'q"t', 'c']
 KV_NAMES_UNI = ['ß', 'ss', 'SS', 'İ', 'é', 'É', 'ǆ', 'ǅ', 'ſubkeys', 'ﬁ', 'fi']
@@ -995,7 +1138,19 @@ def report_failure(ck: Ck, found: dict, spec: dict, mode: dict) -> None:
     if problem is None:
         small = spec
         problem, stage = U.roundtrip(small, mode)
-    key = f'{mode_class(small, mode)}:{U.classify(small)}'
+    cls = U.classify(small)
+    m = re.match(r"elem\[(\d+)\]\.attr\[(.+?)\](?:\[\d+\])? (value|type|length|array-ness)", problem or '')
+    if stage == 'compare' and m:
+        # the comparison names the attribute that differs: classify that attribute alone
+        try:
+            import ast as _ast
+            nm = _ast.literal_eval(m.group(2))
+            a = next(a for a in U.reachable_canon(small)['elems'][int(m.group(1))]['attrs'] if a[0] == nm)
+            vals = [0 if isinstance(v, int) and not isinstance(v, bool) and a[1] == 'ELEMENT' else v for v in a[3]]
+            cls = U.classify({'elems': [{'type': 'T', 'name': 'n', 'uuid': _U[0], 'attrs': [['a', a[1], a[2], vals]]}]})
+        except Exception:
+            pass
+    key = f'{mode_class(small, mode)}:{cls}'
     size = sum(len(e['attrs']) + 1 for e in small['elems'])
     if key not in found or size < found[key][3]:
         found[key] = (small, mode, f'{stage}: {problem}', size)
@@ -1084,6 +1239,10 @@ OBLIGATIONS = {
     'kv2_element_and_string_are_types': 'kv2_element_and_string_are_types',
     'kv2_literals_need_no_escape': 'kv2_literals_need_no_escape',
     'kv2_text_premises': 'vtnames_ok gen_tables gen_fold gen_vtnames',
+    'kv2_float_text_six_places_stripped': 'float_text_cfg_ok gen_float_fmt',
+    'kv2_vector_text_components_in_order': 'vec_text_components_ok gen_vec_text_written gen_vec_text_read',
+    'kv2_color_text_components': 'color_text_ok gen_color_text_written gen_color_text_read',
+    'kv2_scalar_text_functions': 'scalar_text_funcs_ok gen_int_text_funcs gen_float_text_funcs',
     'kv1_element_types_distinct': 'kv1_types_distinct gen_kv1',
     'kv1_keys_written_are_keys_read': 'kv1_keys_agree gen_kv1',
     'kv1_reserved_names_cover_name_and_subkeys': 'kv1_reserved_covers gen_kv1',
@@ -1103,6 +1262,10 @@ EXPLAIN = {
     'instance:kv2_stubs_written_by_reference': ['kv2', 'stub'],
     'correspondence:kv2-flat-text': ['kv2', ''],
     'correspondence:kv2-nested-text': ['kv2', ''],
+    'correspondence:kv2-value-text': ['kv2', ''],
+    'instance:kv2_float_text_six_places_stripped': ['kv2', 'float'],
+    'instance:kv2_vector_text_components_in_order': ['kv2', ''],
+    'instance:kv2_color_text_components': ['kv2', 'color'],
     'instance:kv2_keyword_typed_elements_written_at_root': ['kv2', 'element-type-is-value-type-name'],
     'instance:time_rounds_to_nearest_tick': ['binary', 'time'],
     'instance:time_scale_written_is_scale_read': ['binary', 'time'],
@@ -1162,6 +1325,7 @@ def run(ck: Ck) -> None:
         corr_kv2(ck)
         corr_keyword_predicate(ck)
         corr_kv2_nested(ck)
+        corr_value_text(ck)
         corr_kv1(ck)
     search_graphs(ck)
     search_kv1(ck)
